@@ -164,9 +164,16 @@ def take_expected(vals, ax, positions):
     return np.take(src, np.array(positions, dtype=int), axis=ax) if len(positions) else np.take(src, np.array([], dtype=int), axis=ax)
 
 
-def compare(res, dims, labels, exp, what, sig):
+def compare(res, dims, labels, exp, what, sig, src=None):
     da = core.env.import_dimarray()
     check(isinstance(res, da.DimArray), "not-a-dimarray", {"what": what, "got": core.brief(res)}, sig)
+    if src is not None:
+        # selecting, sorting and dropping hand the data and the labels through unconverted (also when nothing is left)
+        check(res.values.dtype == src.values.dtype, "value-dtype", {"what": what, "got": str(res.values.dtype), "source": str(src.values.dtype)}, sig)
+        for i_, ax_ in enumerate(src.axes):
+            if ax_.size and res.axes[i_].size:
+                k1, k2 = ax_.values.dtype.kind, res.axes[i_].values.dtype.kind
+                check(("s" if k1 in "OUS" else k1) == ("s" if k2 in "OUS" else k2), "label-kind", {"what": what, "dim": ax_.name, "got": str(res.axes[i_].values.dtype), "source": str(ax_.values.dtype)}, sig)
     check(list(res.dims) == list(dims), "dims", {"what": what, "got": list(res.dims), "expected": list(dims)}, sig)
     for i, d in enumerate(dims):
         check(core.same_labels(res.axes[i].values, labels[i]), "labels", {"what": what, "dim": d, "got": core.jsonable(res.axes[i].values), "expected": core.jsonable(labels[i])}, sig)
@@ -235,7 +242,7 @@ def run_case(case):
             pos = sorted(range(n), key=lambda i: f(labs[i]))
             res = lib(lambda: a.sort_axis(axis=axis, key=f), what=what, sig=sig)
             cl.add("sort_axis:key")
-        compare(res, dims, newlabels(pos), take_expected(vals, ax, pos), what, sig)
+        compare(res, dims, newlabels(pos), take_expected(vals, ax, pos), what, sig, src=a)
     elif op == "take_axis":
         ind = p["indices"]
         if p["indexing"] == "label":
@@ -247,7 +254,7 @@ def run_case(case):
                 cl.add("take_axis:negative-position")
         arg = list(ind) if p["as"] == "list" else tuple(ind) if p["as"] == "tuple" else (core.label_array(ind) if p["indexing"] == "label" and ind else np.array(ind, dtype=int if p["indexing"] == "position" or not ind else None))
         res = lib(lambda: a.take_axis(arg, axis=axis, indexing=p["indexing"]), what=what, sig=sig)
-        compare(res, dims, newlabels(pos), take_expected(vals, ax, pos), what, sig)
+        compare(res, dims, newlabels(pos), take_expected(vals, ax, pos), what, sig, src=a)
         cl.add("take_axis:" + p["indexing"])
         if len(set(pos)) < len(pos):
             cl.add("take_axis:repeats")
@@ -255,7 +262,7 @@ def run_case(case):
         pos = [i for i, b in enumerate(p["mask"]) if b]
         for mname, m in (("array", np.array(p["mask"], dtype=bool)), ("list", list(p["mask"]))):
             res = lib(lambda: a.compress_axis(m, axis=axis), what=what + " mask as " + mname, sig=sig)
-            compare(res, dims, newlabels(pos), take_expected(vals, ax, pos), what, sig)
+            compare(res, dims, newlabels(pos), take_expected(vals, ax, pos), what, sig, src=a)
         cl.add("compress_axis")
     elif op == "compress":
         mask = np.array(p["mask"], dtype=bool).reshape(vals.shape)
@@ -268,7 +275,7 @@ def run_case(case):
         exp_vals = [vals[idx] for idx in cells]
         if nd == 1:
             pos = [i[0] for i in cells]
-            compare(res, dims, newlabels(pos), take_expected(vals, 0, pos), what, sig)
+            compare(res, dims, newlabels(pos), take_expected(vals, 0, pos), what, sig, src=a)
         else:
             cl.add("compress:nd")
             if len(cells) == 1 and not isinstance(res, da.DimArray):
@@ -302,7 +309,7 @@ def run_case(case):
             keep = [k for k in range(n) if valid[k] >= (slice_size if mv is None else mv)]
             w = what + " minvalid=%r" % mv
             res = lib(lambda: a.dropna(axis=axis, **kw), what=w, sig=sig)
-            compare(res, dims, newlabels(keep), take_expected(vals, ax, keep), w, sig)
+            compare(res, dims, newlabels(keep), take_expected(vals, ax, keep), w, sig, src=a)
             cl.add("dropna:default" if mv is None else "dropna:minvalid")
             if 0 < len(keep) < n:
                 cl.add("dropna:partial")
